@@ -475,12 +475,39 @@ func mkP(op opcode, s ssort, p0, p1 int, name string, args ...*term) *term {
 			}
 		}
 	}
+	// unsigned division, remainder and multiplication of 64-bit terms whose values provably fit a narrower
+	// width are done at that width (the bit-blasted circuit shrinks quadratically)
+	if (op == oUDiv || op == oURem || op == oMul) && (s == sBV64 || s == bvSort(32)) && len(args) == 2 && !(args[0].isConst() && args[1].isConst()) {
+		al, ah, ok1 := args[0].bvRange()
+		bl, bh, ok2 := args[1].bvRange()
+		if ok1 && ok2 && al >= 0 && bl >= 0 && (op == oMul || bl >= 1) {
+			top := ah
+			if bh > top {
+				top = bh
+			}
+			if op == oMul {
+				top = ah * bh
+				if ah > 1<<31 || bh > 1<<31 {
+					top = 1 << 62
+				}
+			}
+			for _, nw := range []int{16, 32} {
+				if nw < s.width() && top < int64(1)<<uint(nw-1) {
+					return tZExt(mkP(op, bvSort(nw), p0, p1, name, tExtract(args[0], nw-1, 0), tExtract(args[1], nw-1, 0)), s.width())
+				}
+			}
+		}
+	}
 	// light simplification
 	switch op {
 	case oNot:
 		a := args[0]
 		if a.op == oNot {
 			return a.args[0]
+		}
+	case oNeg:
+		if args[0].op == oNeg {
+			return args[0].args[0]
 		}
 	case oAnd, oOr:
 		unit, zero := mkBool(true), mkBool(false)
@@ -1036,6 +1063,19 @@ func (t *term) computeRange() (int64, int64, bool) {
 			}
 		}
 		return lo, hi, true
+	case oUDiv, oURem:
+		al, ah, ok1 := t.args[0].bvRange()
+		bl, bh, ok2 := t.args[1].bvRange()
+		if !ok1 || !ok2 || al < 0 || bl < 1 {
+			return 0, 0, false
+		}
+		if t.op == oUDiv {
+			return al / bh, ah / bl, true
+		}
+		if ah < bh-1 {
+			return 0, ah, true
+		}
+		return 0, bh - 1, true
 	case oIte:
 		al, ah, ok1 := t.args[1].bvRange()
 		bl, bh, ok2 := t.args[2].bvRange()
@@ -1104,6 +1144,37 @@ func asIntFloat(f *term) (*term, bool) {
 	return nil, false
 }
 
+// intPlusFraction recognises FAdd/FSub of an integer-valued float (magnitude below 2^51, so the sum is exact)
+// and a constant c with |c| < 1; it returns the integer term and c (negated for FSub).
+func intPlusFraction(f *term) (*term, float64, bool) {
+	if f.op != oFAdd && f.op != oFSub {
+		return nil, 0, false
+	}
+	for i := 0; i < 2; i++ {
+		if f.op == oFSub && i == 1 {
+			break // c - x is not of this shape
+		}
+		it, ok := asIntFloat(f.args[i])
+		c := f.args[1-i]
+		if !ok || !c.isConst() {
+			continue
+		}
+		cv := math.Float64frombits(c.bits)
+		if cv != cv || cv <= -1 || cv >= 1 || cv*4 != math.Trunc(cv*4) {
+			continue // only quarters: the sum with an integer below 2^51 is exact
+		}
+		lo, hi, okr := it.bvRange()
+		if !okr || lo < -(1<<51) || hi > 1<<51 {
+			continue
+		}
+		if f.op == oFSub {
+			cv = -cv
+		}
+		return it, cv, true
+	}
+	return nil, 0, false
+}
+
 func intFloatSimplify(op opcode, s ssort, p0 int, args []*term) *term {
 	switch op {
 	case oFAdd, oFSub, oFMul:
@@ -1137,6 +1208,34 @@ func intFloatSimplify(op opcode, s ssort, p0 int, args []*term) *term {
 	case oFLt, oFLe, oFEq:
 		a, ok1 := asIntFloat(args[0])
 		b, ok2 := asIntFloat(args[1])
+		if !ok1 && !ok2 && op != oFEq {
+			// (integer-valued float + fraction) against a constant: decided by range when possible
+			for i := 0; i < 2; i++ {
+				if it, c, ok := intPlusFraction(args[i]); ok && args[1-i].isConst() {
+					cv := math.Float64frombits(args[1-i].bits)
+					if cv != cv {
+						return mkBool(false)
+					}
+					lo, hi, _ := it.bvRange()
+					flo, fhi := float64(lo)+c, float64(hi)+c
+					if i == 0 { // x < cv / x <= cv
+						if fhi < cv {
+							return mkBool(true)
+						}
+						if flo > cv {
+							return mkBool(false)
+						}
+					} else { // cv < x / cv <= x
+						if cv < flo {
+							return mkBool(true)
+						}
+						if cv > fhi {
+							return mkBool(false)
+						}
+					}
+				}
+			}
+		}
 		if ok1 != ok2 {
 			// int-valued float against an arbitrary finite constant: decide by range when possible
 			var it, c *term
@@ -1248,6 +1347,13 @@ func intFloatSimplify(op opcode, s ssort, p0 int, args []*term) *term {
 	case oF2SBV:
 		if a, ok := asIntFloat(args[0]); ok {
 			return a
+		}
+		// truncation of (integer-valued float + fraction constant of the same sign side): the integer itself
+		if it, c, ok := intPlusFraction(args[0]); ok {
+			lo, hi, _ := it.bvRange()
+			if (c >= 0 && lo >= 0) || (c <= 0 && hi <= 0) {
+				return it
+			}
 		}
 	}
 	return nil
